@@ -119,8 +119,9 @@ def admissible(fmt, m):
         return False
     if fmt == "incidence":
         return True
-    if any((" " in str(x) or "#" in str(x)) for x in nodes + edges):
-        return False
+    import re
+    if any(not re.fullmatch(r"-?[A-Za-z0-9_]+", str(x)) for x in nodes + edges):
+        return False  # a label containing a delimiter / comment / whitespace character
     return True
 
 
